@@ -127,7 +127,7 @@ def replay_part(pid, tier):
 
 
 # properties with probes in the compiled-code harness (/verif/replay-exec): what serde does with the generated declarations
-EXEC_PROPS = ("C01", "C03", "C04", "C05", "C09", "C10", "C14", "C16", "C18")
+EXEC_PROPS = ("C01", "C03", "C04", "C05", "C09", "C10", "C14", "C15", "C16", "C18")
 
 
 def exec_part(pid, tier):
